@@ -24,6 +24,8 @@ import (
 	"fmt"
 	"net"
 	"net/netip"
+	"os"
+	"os/exec"
 	"reflect"
 	"sort"
 	"sync"
@@ -712,6 +714,20 @@ func (c *collector) add(key string, order [2]int64, what string, lc layoutCase) 
 	}
 }
 
+func (c *collector) merge(w workerFound) {
+	c.mu.Lock()
+	defer c.mu.Unlock()
+	f, ok := c.m[w.Key]
+	if !ok {
+		c.m[w.Key] = &found{w.Order, w.What, w.Case, w.Count}
+		return
+	}
+	f.count += w.Count
+	if w.Order[0] < f.order[0] || (w.Order[0] == f.order[0] && w.Order[1] < f.order[1]) {
+		f.order, f.what, f.c = w.Order, w.What, w.Case
+	}
+}
+
 func (c *collector) flush(r *vk.Run) {
 	keys := []string{}
 	for k := range c.m {
@@ -802,6 +818,7 @@ type job struct {
 	tuples [][]spec.KV
 	o      options
 	p      program
+	ix     int64 // global index of the layout (the same in every worker)
 }
 
 func main() {
@@ -810,6 +827,16 @@ func main() {
 	if r.Replay != "" {
 		replay(r)
 		return
+	}
+	if r.Worker == "" {
+		parent(r)
+		return
+	}
+	// worker "k/n": the layouts whose index is k modulo n
+	var shard, shards int
+	if _, err := fmt.Sscanf(r.Worker, "%d/%d", &shard, &shards); err != nil || shards < 1 || shard < 0 || shard >= shards {
+		fmt.Fprintf(os.Stderr, "C18 worker: bad spec %q\n", r.Worker)
+		os.Exit(2)
 	}
 
 	var alphabets, deepAlphabets, pairAlphabets [spec.NumKinds][]spec.KV
@@ -825,23 +852,28 @@ func main() {
 		perFamily[f] = &atomic.Int64{}
 	}
 	var jobs []job
+	var layouts int64
 	var samplesMu sync.Mutex
-	sampled := map[string]bool{}
+	samples := map[string]any{}
 	sample := func(family string, l layout, vals []spec.KV) {
 		samplesMu.Lock()
 		defer samplesMu.Unlock()
-		if sampled[family] {
+		if _, ok := samples[family]; ok {
 			return
 		}
-		sampled[family] = true
 		ref, _ := reference(l, vals)
-		r.Sample(map[string]any{"family": family, "layout": describe(l), "values": vals, "reference_message": vk.Hex(ref)})
+		samples[family] = map[string]any{"family": family, "layout": describe(l), "values": vals, "reference_message": vk.Hex(ref)}
 	}
 
 	add := func(family string, l layout, tuples [][]spec.KV, o options) {
-		jobs = append(jobs, job{family: family, l: l, tuples: tuples, o: o})
+		ix := layouts
+		layouts++
+		if ix%int64(shards) == int64(shard) {
+			jobs = append(jobs, job{family: family, l: l, tuples: tuples, o: o, ix: ix})
+		}
 	}
-	run := func(jb *job, ix int64) {
+	run := func(jb *job) {
+		ix := jb.ix
 		family, l, tuples, o, p := jb.family, jb.l, jb.tuples, jb.o, jb.p
 		var n, d int64
 		for j, vals := range tuples {
@@ -1013,36 +1045,119 @@ func main() {
 		}
 	}
 
-	println("phase0", time.Now().String())
 	// Phase 1 builds every struct type (and its pointer type) before phase 2 runs the codec:
 	// reflect's type caches are sync.Maps, which are only cheap to read while nothing is added.
 	vk.Parallel(len(jobs), func(i int) {
 		jobs[i].p = build(jobs[i].l)
 		reflect.PointerTo(jobs[i].p.t)
 	})
-	println("phase1", time.Now().String())
-	profStop()
-	vk.Parallel(len(jobs), func(i int) { run(&jobs[i], int64(i)) })
-	profStop()
-	coll.flush(r)
+	vk.Parallel(len(jobs), func(i int) { run(&jobs[i]) })
 
-	r.Count(cases.Load())
-	r.Distinct(distinct.Load())
+	res := workerResult{Cases: cases.Load(), Distinct: distinct.Load(), Layouts: layouts, Mine: int64(len(jobs)),
+		Types: typesBuilt.Load(), Calls: libraryCalls.Load(), PerFamily: map[string]int64{}, Samples: samples}
 	for f, n := range perFamily {
-		r.Set("cases_"+f, n.Load())
+		res.PerFamily[f] = n.Load()
 	}
-	r.Set("layouts", int64(len(jobs)))
-	r.Set("struct_types_built", typesBuilt.Load())
-	r.Set("library_calls", libraryCalls.Load())
+	for k, f := range coll.m {
+		res.Found = append(res.Found, workerFound{Key: k, Order: f.order, What: f.what, Case: f.c, Count: f.count})
+	}
+	if err := json.NewEncoder(os.Stdout).Encode(res); err != nil {
+		fmt.Fprintf(os.Stderr, "C18 worker: %v\n", err)
+		os.Exit(2)
+	}
+	os.Exit(0)
+}
+
+type workerFound struct {
+	Key   string     `json:"key"`
+	Order [2]int64   `json:"order"`
+	What  string     `json:"what"`
+	Case  layoutCase `json:"case"`
+	Count int64      `json:"count"`
+}
+
+type workerResult struct {
+	Cases     int64            `json:"cases"`
+	Distinct  int64            `json:"distinct"`
+	Layouts   int64            `json:"layouts"`
+	Mine      int64            `json:"mine"`
+	Types     int64            `json:"types"`
+	Calls     int64            `json:"calls"`
+	PerFamily map[string]int64 `json:"per_family"`
+	Samples   map[string]any   `json:"samples"`
+	Found     []workerFound    `json:"found"`
+}
+
+// parent runs the enumeration in worker processes, one after the other (each uses every core):
+// struct types made with reflect.StructOf are never freed, so the number of types alive at once is
+// bounded by giving each worker a share of the layouts.
+func parent(r *vk.Run) {
+	shards := 8
+	if r.Thorough() {
+		shards = 12
+	}
+	perFamily := map[string]int64{}
+	var layouts, mine, built, calls int64
+	samples := map[string]any{}
+	for k := 0; k < shards; k++ {
+		cmd := exec.Command(os.Args[0], "--worker", fmt.Sprintf("%d/%d", k, shards), "--tier", r.Tier)
+		cmd.Stderr = os.Stderr
+		out, err := cmd.Output()
+		var res workerResult
+		if err == nil {
+			err = json.Unmarshal(out, &res)
+		}
+		if err != nil {
+			r.Machinery("worker %d/%d failed: %v", k, shards, err)
+			r.Finish()
+		}
+		if k > 0 && res.Layouts != layouts {
+			r.Machinery("worker %d/%d enumerated %d layouts, worker 0 enumerated %d", k, shards, res.Layouts, layouts)
+			r.Finish()
+		}
+		layouts = res.Layouts
+		mine += res.Mine
+		built += res.Types
+		calls += res.Calls
+		r.Count(res.Cases)
+		r.Distinct(res.Distinct)
+		for f, n := range res.PerFamily {
+			perFamily[f] += n
+		}
+		for f, v := range res.Samples {
+			if _, ok := samples[f]; !ok {
+				samples[f] = v
+			}
+		}
+		for _, f := range res.Found {
+			coll.merge(f)
+		}
+	}
+	if mine != layouts {
+		r.Machinery("workers covered %d of %d layouts", mine, layouts)
+		r.Finish()
+	}
+	coll.flush(r)
+	for _, f := range []string{"single-field", "two-field", "three-field", "function-code-tags", "fixed-value-tags", "som-tags"} {
+		r.Set("cases_"+f, perFamily[f])
+		if v, ok := samples[f]; ok {
+			r.Sample(v)
+		}
+	}
+	r.Set("layouts", layouts)
+	r.Set("struct_types_built", built)
+	r.Set("library_calls", calls)
 	r.Set("field_kinds", int64(spec.NumKinds))
+	r.Set("worker_processes", int64(shards))
 	third := "not in this tier"
 	if r.Thorough() {
-		third = "every ordered kind triple adjacent at offsets 2, 30 and end-aligned x 4 embedding patterns x (baseline tuple + each field over its small alphabet)"
+		third = "every ordered triple of the 21 kind variants, adjacent, at offsets 2, 30 and end-aligned x 4 embedding patterns (none, middle, outer two, all) x (baseline tuple + each field over its small alphabet)"
 	}
-	r.Rule("struct types generated with reflect.StructOf: (1) every single-field layout = 20 kinds (17 + pointer variants of Date, DateTime, HHmm; the fixed-value byte in 10 tag spellings) x every offset 2..63 at which the kind fits x plain/embedded x the kind's whole value alphabet; (2) every two-field layout = every ordered pair of 21 kind variants x every offset of the first field x second field adjacent and right-aligned to byte 63 x 4 embedding patterns x the cross product of the two small alphabets; (3) three-field layouts: " + third + "; (4) every function code 0..255 x every decimal/0x/0X/upper-case spelling x all 255 wrong codes on decode; (5) every fixed value 0..255 x every spelling at offsets 2, 33, 63 plain and embedded x all 255 wrong bytes, plus five values in every spelling at every other offset; (6) SOM tags 0x17/0x19 in every spelling (emission). A case is one (layout, value tuple); cases are pairwise distinct by construction (alphabets are duplicate-free, coinciding adjacent/right-aligned placements are generated once); non-trivial = the reference message has at least one non-zero byte after the function code")
+	r.Rule("struct types generated with reflect.StructOf: (1) every single-field layout = 20 kinds (17 + pointer variants of Date, DateTime, HHmm; the fixed-value byte in 10 tag spellings) x every offset 2..63 at which the kind fits x plain/embedded x the kind's value alphabet (boundaries, walking bits, byte-distinct patterns, all 256 bytes; every HH:mm 00:00..24:00 and every IPv4 octet value at the first and last offset); (2) every two-field layout = every ordered pair of 21 kind variants (19 kinds + fixed byte written in decimal and in hex) x every offset of the first field x second field adjacent and right-aligned to byte 63 x 4 embedding patterns (none, second, first, both) x the cross product of the two small alphabets; (3) three-field layouts: " + third + "; (4) every function code 0..255 x every decimal/0x/0X/upper-case spelling x all 255 wrong codes on decode; (5) every fixed value 0..255 x every spelling at offsets 2, 33, 63 plain and embedded x all 255 wrong bytes, plus five values in every spelling at every other offset; (6) SOM tags 0x17/0x19 in every spelling (emission). A case is one (layout, value tuple); cases are pairwise distinct by construction (alphabets are duplicate-free, coinciding adjacent/right-aligned placements are generated once); non-trivial = the reference message has at least one non-zero byte after the function code")
 	r.Assume("reference encoders spec.KindEncode are written by hand from the protocol; reflect.StructOf types behave like declared struct types for the codec (same reflect API)")
 	r.Assume("time.Local = UTC (zone behaviour of dates belongs to C13/C05)")
 	r.Assume("function codes and tag spellings of the field layouts are assigned by a fixed arithmetic rule over (offset, kind); their full product is enumerated in family (4)")
+	r.Assume("a *types.PIN field and nil / non-6-byte MAC, nil or non-IPv4 address values are outside the property's grammar and not generated")
 	r.Finish()
 }
 
